@@ -338,6 +338,9 @@ class C05(Property):
         f2, c2 = self.dispatch_trace(ctx, rng)
         findings += f2
         cov.update(c2)
+        f2b, c2b = self.search_after_dispatch_break(ctx, rng, f2)
+        findings += f2b
+        cov.update(c2b)
         f3, c3 = self.problem_strings(ctx, rng)
         findings += f3
         cov.update(c3)
@@ -348,7 +351,8 @@ class C05(Property):
         return findings, cov
 
     # ---- dispatch correspondence: the CLI run against a recording external solver = the composed Lean model ----
-    def dispatch_trace(self, ctx, rng):
+    def dispatch_trace(self, ctx, rng, tasks=None, force_cert=None):
+        """tasks / force_cert: restriction used by C04 (acceptance problems, certificate always requested)"""
         tier, runner = ctx["tier"], ctx["runner"]
         crust = os.path.join(common.REPO_TARGET, "release", "crustabri")
         fake = os.path.join(common.VERIF, "tools", "fakesolver.py")
@@ -360,6 +364,8 @@ class C05(Property):
             open(path, "w").write("p af %d\n" % n + "".join("%d %d\n" % (a + 1, b + 1) for a, b in atts))
             for prob in PROBLEMS:
                 t, sem = prob.split("-")
+                if tasks is not None and t not in tasks:
+                    continue
                 shown_variants = [prob]
                 if prob == "SE-PR" or rng.random() < 0.15:
                     shown_variants.append(recase(rng, prob) if prob != "SE-PR" else "se-pr")
@@ -368,7 +374,7 @@ class C05(Property):
                         if tier == "quick" and fi >= 5 and rng.random() < 0.5:
                             continue
                         arg = rng.randrange(n) if t != "SE" else None
-                        cert = rng.random() < 0.5
+                        cert = rng.random() < 0.5 if force_cert is None else force_cert
                         k = len(jobs)
                         cap = os.path.join(d, "cap_%d" % k)
                         os.makedirs(cap, exist_ok=True)
@@ -471,6 +477,101 @@ class C05(Property):
                                         "cli/%s · printed answer differs from the model" % entry, {"cmd": shown, "stdout": out[:200]}))
         return findings, {"cli_dispatch_runs": len(jobs), "cli_dispatch_sat_calls_compared": ncalls, "cli_dispatch_combinations": len(combos),
                           "cli_dispatch_frameworks": len(fws)}
+
+    # ---- search for a concrete failing input after a broken dispatch correspondence ----
+    def search_after_dispatch_break(self, ctx, rng, dispatch_findings):
+        import re
+        combos = set()
+        for f in dispatch_findings:
+            m = re.match(r"cli/(\w+)-(\w+) enc=(\w+) · dispatch or encoding differs", f.signature)
+            if m:
+                combos.add((m.group(1), m.group(2), None if m.group(3) == "default" else m.group(3)))
+        if not combos:
+            return [], {}
+        runs = 0
+        found = []
+        for _ in range(4 if ctx["tier"] == "quick" else 24):
+            f2, c2 = self.search_failing_cli(ctx, rng, combos, 1500)
+            runs += c2["cli_failing_input_search_runs"]
+            found += f2
+            if f2:
+                break
+        return found, {"cli_failing_input_search_runs": runs}
+
+    def search_failing_cli(self, ctx, rng, combos, budget):
+        """combos: (task, sem, enc or None) whose SAT instances differ from the model's.  Runs the real binary (built-in SAT solver)
+        on up to `budget` (framework, argument) pairs per combination and judges every printed answer with the proved deciders."""
+        runner = ctx["runner"]
+        crust = os.path.join(common.REPO_TARGET, "release", "crustabri")
+        d = runner.dir
+        jobs = []
+        for ci, (t, sem, enc) in enumerate(sorted(combos, key=str)):
+            cnt = 0
+            fi = 0
+            while cnt < budget:
+                if rng.random() < 0.3:
+                    n, atts = gen.gadget_union(rng, 8)
+                else:
+                    n, atts = gen.random_framework(rng, rng.choice([5, 6, 7, 8]))
+                if n == 0:
+                    continue
+                path = os.path.join(d, "srch_%d_%d.af" % (ci, fi))
+                fi += 1
+                open(path, "w").write("p af %d\n" % n + "".join("%d %d\n" % (a + 1, b + 1) for a, b in atts))
+                for arg in ([None] if t == "SE" else range(n)):
+                    cmd = [crust, "solve", "-f", path, "-p", "%s-%s" % (t, sem), "--logging-level", "off", "-c"]
+                    if arg is not None:
+                        cmd += ["-a", str(arg + 1)]
+                    if enc:
+                        cmd += ["--encoding", enc]
+                    jobs.append(dict(cmd=cmd, n=n, atts=atts, t=t, sem=sem, enc=enc, arg=arg, path=path))
+                    cnt += 1
+
+        def run(job):
+            try:
+                pr = subprocess.run(job["cmd"], stdout=subprocess.PIPE, stderr=subprocess.PIPE, timeout=120)
+                return (pr.returncode, pr.stdout.decode(errors="replace"))
+            except subprocess.TimeoutExpired:
+                return (None, "")
+        with ThreadPoolExecutor(max_workers=16) as ex:
+            results = list(ex.map(run, jobs))
+        blocks = []
+        for k, (job, (rc, out)) in enumerate(zip(jobs, results)):
+            if rc != 0:
+                continue
+            lines = out.split("\n")
+            if lines and lines[-1] == "":
+                lines = lines[:-1]
+            t = job["t"]
+
+            def dense(ws):
+                return ",".join(str(int(x) - 1) for x in ws) if ws else "[]"
+            try:
+                if t == "SE":
+                    ans = "ans SE ext=NONE members=1" if lines == ["NO"] else "ans SE ext=%s members=1" % dense(lines[0].split(" ")[1:])
+                else:
+                    w = lines[1].split(" ")[1:] if len(lines) == 2 else None
+                    ans = "ans ACC status=%s cert=%s members=1" % (lines[0], "NONE" if w is None else dense(w))
+            except (IndexError, ValueError):
+                continue
+            jsem = "CO" if (t == "DC" and job["sem"] == "PR") else job["sem"]
+            blocks.append("case s%d solve\nfw n=%d labels=- ids=- atts=%s\nquery sem=%s enc=- task=%s cert=%d args=%s\n%s\nunchanged 1\nend\n" % (
+                k, job["n"], ",".join("%d>%d" % pq for pq in job["atts"]), jsem, t, 0 if t == "SE" else 1,
+                "-" if job["arg"] is None else str(job["arg"]), ans))
+        _, model = runner.driver("".join(blocks))
+        findings = []
+        seen = set()
+        for k, job in enumerate(jobs):
+            for v in model.get("s%d" % k, []):
+                if v.startswith("verdict BAD"):
+                    sig = "cli/%s-%s · %s" % (job["t"], job["sem"], v[12:])
+                    if sig in seen:
+                        continue
+                    seen.add(sig)
+                    shown = " ".join(job["cmd"])
+                    findings.append(Finding("input", None, "wrong answer printed for %s-%s enc=%s: %s | %s" % (job["t"], job["sem"], job["enc"] or "default", v[12:], shown[-160:]),
+                                            sig, {"cmd": shown, "stdout": results[k][1][:200], "file": open(job["path"]).read()}))
+        return findings, {"cli_failing_input_search_runs": len(jobs)}
 
     # ---- the problem-string parser against its Lean model (readProblem) ----
     def problem_strings(self, ctx, rng):
